@@ -255,3 +255,21 @@ Proof.
   vm_compute. repeat split. - intros th [<-|[<-|[<-|[]]]]; reflexivity. - eexists; repeat split.
 Qed.
 
+
+(* two selects, one sends on channel 1, the other receives on it but also has a send case on
+   channel 0 (lower address): the receiver probes its sends first and then refuses
+   select-senders; both sleep for ever *)
+Definition xw_sendfirst_refuses : list nat * list (list xop) * schedule :=
+  ([0;0]%nat, [[XSelect [CRecv 1; CSend 0 12]]; [XSelect [CSend 1 15; CSend 1 16]]],
+   [0;0;0;0;0;0;0;0;1;0;0;0;0;1;0;0;0;0;1;1;1;1;1;1]%nat).
+
+Lemma w_sendfirst_ex :
+  exists caps progs sc, let s := x_run sc (x_init caps progs) in
+    progs = [[XSelect [CRecv 1; CSend 0 12%N]]; [XSelect [CSend 1 15%N; CSend 1 16%N]]] /\ caps = [0;0]%nat /\
+    (forall th, In th (xths s) -> x_enabled th = false) /\
+    map xtpc (xths s) = [SWaitW; SWaitW] /\ map xout (xths s) = [[]; []].
+Proof.
+  exists [0;0]%nat, [[XSelect [CRecv 1; CSend 0 12%N]]; [XSelect [CSend 1 15%N; CSend 1 16%N]]],
+    [0;0;0;0;0;0;0;0;1;0;0;0;0;1;0;0;0;0;1;1;1;1;1;1]%nat.
+  vm_compute. repeat split. intros th [<-|[<-|[]]]; reflexivity.
+Qed.
